@@ -161,6 +161,27 @@ mod tests {
         assert!(<Vec<Option<i32>> as InputType>::parse(None).is_err());
     }
 
+    /// C06: the same rule for the boxed-slice list containers (src/types/external/list/slice.rs):
+    /// `query($v: [Int]!) { count(items: $v) }` without a value for v must fail, not call the
+    /// resolver with the one-element list [null].
+    #[test]
+    fn c06_null_is_not_coerced_to_a_boxed_slice_of_null() {
+        assert!(<Box<[Option<i32>]> as InputType>::parse(Some(Value::Null)).is_err());
+        assert!(<Box<[Option<i32>]> as InputType>::parse(None).is_err());
+        assert!(<std::sync::Arc<[Option<i32>]> as InputType>::parse(Some(Value::Null)).is_err());
+        assert!(<std::sync::Arc<[Option<i32>]> as InputType>::parse(None).is_err());
+        struct Q7;
+        #[Object]
+        impl Q7 {
+            async fn count(&self, items: Box<[Option<i32>]>) -> usize {
+                items.len()
+            }
+        }
+        let schema = Schema::new(Q7, EmptyMutation, EmptySubscription);
+        let r = block_on(schema.execute("query($v: [Int]!) { count(items: $v) }"));
+        assert!(!r.errors.is_empty(), "resolver ran with [null] for an omitted [Int]! variable: {:?}", r.data);
+    }
+
     // ---- known (unfixed) findings: these FAIL on the unchanged tree by design; run with --ignored.
 
     /// C01 (known finding): a non-finite float returned from a `Float!` field must not put null
